@@ -25,6 +25,9 @@ def run(rep, tier):
     shapes = [SHAPE] if tier == "thorough" else [[("interval", "I", 1), ("point", "E", 0)], [("interval", "E", 0), ("point", "P", 1)]]
     for shape in shapes:
         lifting(rep, shape)
+    lifting(rep, [("interval", "I", 1), ("point", "P", 1)], only="crop", own=True)
+    lifting(rep, [("interval", "I", 1), ("point", "P", 1)], only="insertSpace", own=True)
+    lifting(rep, [("interval", "I", 2)], only="eraseRegion", own=True)
 
     add_tier_table(rep, tier)
     rename_replace_table(rep)
@@ -32,28 +35,36 @@ def run(rep, tier):
     rule_atomic(rep, ["Textgrid.addTier", "Textgrid.removeTier", "Textgrid.renameTier", "Textgrid.replaceTier"])
 
 
-def lifting(rep, shape, only=None):
+def lifting(rep, shape, only=None, own=False):
+    """own=True: tiers span only their own entries (narrower than the textgrid); the textgrid's resulting span is checked."""
+    sfx = "-ownspans" if own else ""
     # --- crop
     def win(at):
         return {"a": at.var("a"), "b": at.var("b")}
     if only in (None, "crop"):
-      lifted_table(rep, "L-lifting-crop", "crop", shape, win,
+      lifted_table(rep, "L-lifting-crop" + sfx, "crop", shape, win,
                  [(m, r) for m in ("strict", "lax", "truncated") for r in (True, False) if (m, r) != ("lax", True)],
                  lambda I, tg, sy, mode: I.call_value(I.getattr(tg, "crop"), [sy["a"], sy["b"], mode[0], mode[1]], {}),
                  lambda I, t, sy, mode: I.call_value(I.getattr(t, "crop"), [sy["a"], sy["b"], mode[0], mode[1]], {}),
-                 "crop window (a,b)", shared_span=lambda mode: mode[0] != "lax", check_valid=lambda mode: mode[0] != "lax")
+                 "crop window (a,b)", shared_span=lambda mode: mode[0] != "lax", check_valid=(lambda mode: mode[0] != "lax") if not own else None, own_spans=own,
+                 tg_span=(lambda I, sy, mode, m, M: None if mode[0] == "lax" else ((Lin.num(0), sy["b"] - sy["a"]) if mode[1] else (sy["a"], sy["b"]))) if own else None)
 
     # --- eraseRegion (region inside the span)
     def reg(at):
         a, b = at.var("a"), at.var("b")
         at.rel("m", "<=", "a")
         at.rel("b", "<=", "M")
+        if own:  # the region lies inside every tier's own span (the tier-level operation's domain)
+            for kind, name, k in shape:
+                at.rel(name + ("s1" if kind == "interval" else "t1"), "<=", "a")
+                at.rel("b", "<=", name + ("e%d" % k if kind == "interval" else "t%d" % k))
         return {"a": a, "b": b}
     if only in (None, "eraseRegion"):
-      lifted_table(rep, "L-lifting-eraseRegion", "eraseRegion", shape, reg, [True, False],
+      lifted_table(rep, "L-lifting-eraseRegion" + sfx, "eraseRegion", shape, reg, [True, False],
                  lambda I, tg, sy, mode: I.call_value(I.getattr(tg, "eraseRegion"), [sy["a"], sy["b"], mode], {}),
                  lambda I, t, sy, mode: I.call_value(I.getattr(t, "eraseRegion"), [sy["a"], sy["b"], "truncate", mode], {}),
-                 "region (a,b) inside span", shared_span=lambda mode: True, check_valid=lambda mode: True)
+                 "region (a,b) inside span", shared_span=(lambda mode: True) if not own else None, check_valid=(lambda mode: True) if not own else None, own_spans=own,
+                 tg_span=(lambda I, sy, mode, m, M: (m, M - (sy["b"] - sy["a"]) if mode else M)) if own else None)
 
     # --- insertSpace
     def gap(at):
@@ -63,10 +74,11 @@ def lifting(rep, shape, only=None):
         at.rel("p", "<=", "M")
         return {"p": p, "d": d}
     if only in (None, "insertSpace"):
-      lifted_table(rep, "L-lifting-insertSpace", "insertSpace", shape, gap, ["stretch", "split", "no_change", "error"],
+      lifted_table(rep, "L-lifting-insertSpace" + sfx, "insertSpace", shape, gap, ["stretch", "split", "no_change", "error"],
                  lambda I, tg, sy, mode: I.call_value(I.getattr(tg, "insertSpace"), [sy["p"], sy["d"], mode], {}),
                  lambda I, t, sy, mode: I.call_value(I.getattr(t, "insertSpace"), [sy["p"], sy["d"], mode], {}),
-                 "insertion point p, duration d>0", shared_span=lambda mode: True, check_valid=lambda mode: True)
+                 "insertion point p, duration d>0", shared_span=(lambda mode: True) if not own else None, check_valid=(lambda mode: True) if not own else None, own_spans=own,
+                 tg_span=(lambda I, sy, mode, m, M: (m, M + sy["d"])) if own else None)
 
     # --- editTimestamps
     def off(at):
@@ -80,7 +92,7 @@ def lifting(rep, shape, only=None):
                 else:
                     at.derived_atom("off+%st%d" % (name, i), o + Lin.var("%st%d" % (name, i)))
         return {"off": o}
-    if only in (None, "editTimestamps"):
+    if only in (None, "editTimestamps") and not own:
         lifted_table(rep, "L-lifting-editTimestamps", "editTimestamps", shape, off, ["silence", "warning", "error"],
                      lambda I, tg, sy, mode: I.call_value(I.getattr(tg, "editTimestamps"), [sy["off"], mode], {}),
                      lambda I, t, sy, mode: I.call_value(I.getattr(t, "editTimestamps"), [sy["off"], mode], {}),
